@@ -7,6 +7,8 @@ import TracklibVerif.Lemmas.CinCoords
 import TracklibVerif.Lemmas.CinTabMore
 import TracklibVerif.Lemmas.CinTabZone
 import TracklibVerif.Lemmas.CinTabSt
+import TracklibVerif.Lemmas.CinTabKOpt
+import TracklibVerif.Lemmas.CinTabKErr
 import Mathlib.Analysis.Real.Sqrt
 /-! # C17 — curvilinear abscissa and speed features match their geometric definitions
 
@@ -27,7 +29,16 @@ shared between tracks are such representations. On the world every observation o
 
 Third part ("per coordinate class", model `Model/CinematicsCoords.lean`): the same Python run on tracks whose positions
 are `ENUCoords`, `GeoCoords` or `ECEFCoords` — which `distance2DTo` each feature dispatches to, the statement for every
-class that defines a planimetric distance, what the Geo distance is geometrically, and what happens on ECEF tracks. -/
+class that defines a planimetric distance, what the Geo distance is geometrically, and what happens on ECEF tracks.
+
+Fourth part ("on the feature table, for every coordinate class", model `Model/CinematicsTabK.lean`): the dispatch of the
+third part put behind the Track API as a KERNEL (`Obs.__check_call_geom1` + the class's `distance2DTo`), the programs
+written once for any kernel, and the table theorems of the second part for every class that defines a planimetric
+distance (`abscurv_table_class`, `speed_table_class`, `curvabs_table_class`, on shared observations
+`abscurv_shared_class` / `speed_shared_class`), the exception path of ECEF tracks from the table laws
+(`ecef_refused_table`), purity and zone-blindness for EVERY kernel (`positions_and_stamps_unchanged_class`,
+`zone_not_read_class`). The ENU programs of the second part are instances of the generic ones by `rfl`
+(`enu_programs_are_instances`). -/
 namespace TV.C17
 open TV.Cinematics
 variable {α : Type}
@@ -629,6 +640,293 @@ theorem geo_distance_horizontal (T : Trig ℝ) (hT : Pyth T) (hpow : ∀ x, T.po
 
 end coordsReal
 
+/-! ## on the feature table, for every coordinate class -/
+
+section tableClass
+open TV.Features TV.CinTab TV.CinTabK TV.CinCoords
+open TV.Geo (Trig V3)
+variable [Add α] [Sub α] [Mul α] [Div α] [Neg α] [OfScientific α] [OfNat α 0] [BEq α] [LE α] [DecidableLE α]
+variable {σ : Type} [Tbl σ (Option α)]
+variable {I : σ → Prop} {n : σ → Nat} {rd : σ → String → Option (List (Option α))} {co : σ → Coord → List (Option α)}
+
+/-- The kernel of a class that defines a planimetric distance (`ENUCoords`, `GeoCoords`): `Obs.distance2DTo` does not
+refuse, `position.distance2DTo` never raises, and both compute `CinCoords.dist2C` — the distance of `class_distance` — on
+the coordinates of the two position objects. (Whatever `Err` stands for the refusal / the missing method of ECEF.) -/
+theorem class_kernel_defines (T : Trig α) (eRef eAttr : Err) (c : Cls) (hc : c ≠ .ecef) :
+    Defines (clsKernel T eRef eAttr c) (onPtsV (dist2C T c)) := by
+  cases c with
+  | enu => exact ⟨rfl, fun _ _ _ _ _ _ => rfl⟩
+  | geo => exact ⟨rfl, fun _ _ _ _ _ _ => rfl⟩
+  | ecef => exact absurd rfl hc
+
+/-- The ENU programs of the table model are the instances of the class-generic ones at `analytics.ds` / `analytics.speed`
+with the `ENUCoords` distance built in: `abscurv_table`, `speed_table`, … are statements about the same program text. -/
+theorem enu_programs_are_instances {V : Type} [Tbl σ V] (g : GOps V) :
+    (computeAbsCurvT g : M σ (List V)) = computeAbsCurvG g (dsAlgT g)
+    ∧ (estimateSpeedT g : M σ (List V)) = estimateSpeedG g (speedAlgT g) := ⟨rfl, rfl⟩
+
+/-- **T1 on the table, for every class with a planimetric distance.** Let a feature table satisfy the laws, hold
+`≥ 1` fixes whose position objects are of class `c` (ENU or Geo) with the finite coordinates `P` (`getX/getY/getZ`), and
+list neither `ds` nor `abs_curv`. Then `computeAbsCurv` — through the Track API, `ds` going through `Obs.distance2DTo` and
+the class's `distance2DTo` — terminates without an exception and returns `[s 0, …, s (n-1)]` with `s 0 = 0`,
+`s (i+1) = s i + d_class(P[i+1], P[i])` (`abscD`; `dist2C`: for Geo the East/North part of the chord in the tangent frame
+at fix `i`) of the positions the table holds NOW; `abs_curv` reads exactly that column afterwards, `ds` is not listed,
+every other name, the coordinate and time columns, the number of fixes and the invariant are unchanged. Any scalar type
+(Float with libm's sin / cos / atan2 / pow / sqrt included). -/
+theorem abscurv_table_class (L : Laws I n rd co) (T : Trig α) (eRef eAttr : Err) (c : Cls) (hc : c ≠ .ecef)
+    (sqrt : α → α) (ofNat : Nat → α) (isNaN : α → Bool) (P : List (V3 α)) (s : σ)
+    (hI : I s) (hn : n s = P.length) (hpos : 0 < P.length)
+    (hx : co s .x = xsP P) (hy : co s .y = ysP P) (hz : co s .z = zsP P)
+    (hds : rd s "ds" = none) (hac : rd s "abs_curv" = none) :
+    ∃ s', (computeAbsCurvK (optG sqrt ofNat isNaN) (clsKernel T eRef eAttr c) : M σ _) s
+        = (.ok ((List.range P.length).map (fun i => some (abscD (dist2C T c) P i))), s')
+      ∧ I s' ∧ n s' = n s ∧ co s' = co s
+      ∧ rd s' "abs_curv" = some ((List.range P.length).map (fun i => some (abscD (dist2C T c) P i)))
+      ∧ ∀ m, m ≠ "abs_curv" → rd s' m = rd s m := by
+  have hK := class_kernel_defines T eRef eAttr c hc
+  obtain ⟨r, s', e, hr, hI', hn', hco', hrd', hoth⟩ :=
+    computeAbsCurvG_fresh L (optG sqrt ofNat isNaN) P.length hpos (co s) (rd s) hds hac
+      (dsAlgK (optG sqrt ofNat isNaN) (clsKernel T eRef eAttr c))
+      (dsFK (optG sqrt ofNat isNaN) (onPtsV (dist2C T c)) (co s .x) (co s .y) (co s .z))
+      (fun i hi s1 hc1 => by
+        have := dsAlgK_read L (optG sqrt ofNat isNaN) hK s1 hc1.1 i (by rw [hc1.2.1]; exact hi)
+        rw [hc1.2.2.1] at this
+        exact this)
+      s ⟨hI, hn, rfl, fun _ => rfl⟩
+  have hf : dsFK (optG sqrt ofNat isNaN) (onPtsV (dist2C T c)) (xsP P) (ysP P) (zsP P) = dsAtD (dist2C T c) P :=
+    funext (dsFK_opt sqrt ofNat isNaN (dist2C T c) P)
+  have hcol : r = (List.range P.length).map (fun i => some (abscD (dist2C T c) P i)) := by
+    rw [hr, hx, hy, hz, hf, integG_opt, integrator_dsD]
+  rw [hcol] at e hrd'
+  exact ⟨s', e, hI', by rw [hn', hn], hco', hrd', hoth⟩
+
+/-- T3 on the table for every class with a planimetric distance (repetition): on a table that lists `abs_curv` (and no
+`ds`), `computeAbsCurv` returns the listed column as it is and every name, the coordinates and the times read afterwards
+what they read before (the temporary `ds` is created from the current positions and removed again). -/
+theorem abscurv_table_class_again (L : Laws I n rd co) (T : Trig α) (eRef eAttr : Err) (c : Cls) (hc : c ≠ .ecef)
+    (sqrt : α → α) (ofNat : Nat → α) (isNaN : α → Bool) (s : σ)
+    (hI : I s) (hpos : 0 < n s) (hds : rd s "ds" = none) (col : List (Option α)) (hac : rd s "abs_curv" = some col) :
+    ∃ s', (computeAbsCurvK (optG sqrt ofNat isNaN) (clsKernel T eRef eAttr c) : M σ _) s = (.ok col, s')
+      ∧ I s' ∧ n s' = n s ∧ co s' = co s ∧ ∀ m, rd s' m = rd s m := by
+  have hK := class_kernel_defines T eRef eAttr c hc
+  obtain ⟨r, s', e, hr, hI', hn', hco', hoth⟩ :=
+    computeAbsCurvG_again L (optG sqrt ofNat isNaN) (n s) hpos (co s) (rd s) hds col hac
+      (dsAlgK (optG sqrt ofNat isNaN) (clsKernel T eRef eAttr c))
+      (dsFK (optG sqrt ofNat isNaN) (onPtsV (dist2C T c)) (co s .x) (co s .y) (co s .z))
+      (fun i hi s1 hc1 => by
+        have := dsAlgK_read L (optG sqrt ofNat isNaN) hK s1 hc1.1 i (by rw [hc1.2.1]; exact hi)
+        rw [hc1.2.2.1] at this
+        exact this)
+      s ⟨hI, rfl, rfl, fun _ => rfl⟩
+  rw [hr] at e
+  exact ⟨s', e, hI', hn', hco', hoth⟩
+
+/-- **T2 on the table, for every class with a planimetric distance.** On a lawful table of `n ≥ 2` fixes of class `c`
+(ENU or Geo) at the finite coordinates `P` and finite times `ts` that does not list `speed`, `estimate_speed` (function
+or method) terminates without an exception and returns `speedColD d_class P ts` of the CURRENT positions and times:
+entry `i` from fixes (1,0) / (n-1,n-2) / (i+1,i-1), NaN when the elapsed time is zero, else `d_class(P[a], P[b])` /
+elapsed (`speedAtD`, `speedBetweenD`; for Geo in the tangent frame at the EARLIER fix `b`); `speed` reads exactly that
+column afterwards, every other name, the coordinates, the times and the invariant are unchanged. -/
+theorem speed_table_class (L : Laws I n rd co) (T : Trig α) (eRef eAttr : Err) (c : Cls) (hc : c ≠ .ecef)
+    (sqrt : α → α) (ofNat : Nat → α) (isNaN : α → Bool) (P : List (V3 α)) (ts : List α) (s : σ)
+    (hI : I s) (hn : n s = P.length) (h2 : 2 ≤ P.length)
+    (hx : co s .x = xsP P) (hy : co s .y = ysP P) (hz : co s .z = zsP P) (ht : co s .t = tsOf ts)
+    (hsp : rd s "speed" = none) :
+    ∃ s', (estimateSpeedK (optG sqrt ofNat isNaN) (clsKernel T eRef eAttr c) : M σ _) s
+        = (.ok (speedColD (dist2C T c) P ts), s')
+      ∧ I s' ∧ n s' = n s ∧ co s' = co s ∧ rd s' "speed" = some (speedColD (dist2C T c) P ts)
+      ∧ ∀ m, m ≠ "speed" → rd s' m = rd s m := by
+  have hK := class_kernel_defines T eRef eAttr c hc
+  obtain ⟨r, s', e, hr, hI', hn', hco', hrd', hoth⟩ :=
+    estimateSpeedG_fresh L (optG sqrt ofNat isNaN) P.length (by omega) (co s) (rd s) hsp
+      (speedAlgK (optG sqrt ofNat isNaN) (clsKernel T eRef eAttr c))
+      (speedFK (optG sqrt ofNat isNaN) (onPtsV (dist2C T c)) (co s .x) (co s .y) (co s .z) (co s .t) P.length)
+      (fun i hi s1 hc1 => by
+        have := speedAlgK_read L (optG sqrt ofNat isNaN) hK s1 hc1.1 (by rw [hc1.2.1]; exact h2) i (by rw [hc1.2.1]; exact hi)
+        rw [hc1.2.2.1, hc1.2.1] at this
+        exact this)
+      s ⟨hI, hn, rfl, fun _ => rfl⟩
+  have hcol : r = speedColD (dist2C T c) P ts := by rw [hr, hx, hy, hz, ht, speedColD_opt]
+  rw [hcol] at e hrd'
+  exact ⟨s', e, hI', by rw [hn', hn], hco', hrd', hoth⟩
+
+/-- T3 on the table (repetition), any class — ECEF included: on a table that lists `speed`, `estimate_speed` returns the
+listed column and does not change the state at all (no distance is taken). -/
+theorem speed_table_class_again (L : Laws I n rd co) (K : Kernel (Option α)) (sqrt : α → α) (ofNat : Nat → α) (isNaN : α → Bool)
+    (s : σ) (hI : I s) (col : List (Option α)) (hsp : rd s "speed" = some col) :
+    (estimateSpeedK (optG sqrt ofNat isNaN) K : M σ _) s = (.ok col, s) :=
+  estimateSpeedG_again L (optG sqrt ofNat isNaN) _ s hI col hsp
+
+/-- `computeCurvAbsBetweenTwoPoints(track)` on a lawful table of `≥ 1` fixes of a class with a planimetric distance only
+reads and returns `curvD d_class P (n-1)`: `0` plus the legs `d_class(P[k], P[k+1])` accumulated in Python's order (for
+Geo: in the tangent frame at the LATER fix `k+1` — the other end than `ds`; the two differ by about leg × height
+difference / Earth radius, which is why the oracle accepts either). Any scalar type. -/
+theorem curvabs_table_class (L : Laws I n rd co) (T : Trig α) (eRef eAttr : Err) (c : Cls) (hc : c ≠ .ecef)
+    (sqrt : α → α) (ofNat : Nat → α) (isNaN : α → Bool) (P : List (V3 α)) (s : σ)
+    (hI : I s) (hn : n s = P.length) (hpos : 0 < P.length)
+    (hx : co s .x = xsP P) (hy : co s .y = ysP P) (hz : co s .z = zsP P) :
+    (curvAbsK (optG sqrt ofNat isNaN) (clsKernel T eRef eAttr c) : M σ _) s
+      = (.ok (some (curvD (dist2C T c) P (P.length - 1))), s) := by
+  have hK := class_kernel_defines T eRef eAttr c hc
+  rw [curvAbsK_read L (optG sqrt ofNat isNaN) hK s hI, hx, hy, hz, hn,
+    curvFK_opt sqrt ofNat isNaN (dist2C T c) P _ (by omega)]
+
+/-- **ECEF tracks on the feature table** (any lawful table — shared observations included — of `n ≥ 2` fixes; `eRef` /
+`eAttr` are whatever `Err` stands for `raise CoordTypeError` / `AttributeError`, not an `IndexError`):
+* no `ds` listed: `computeAbsCurv` ends in the refusal of `Obs.distance2DTo` raised at fix 1; afterwards a `ds` column IS
+  listed (created before the loop of `addAnalyticalFeature`) whose value at fix 0 is the `0` computed there, `abs_curv` is
+  not created, every other name reads as before;
+* no `speed` listed: `estimate_speed` ends in the `AttributeError` of `position.distance2DTo` at fix 0; a `speed` column
+  stays listed, every other name reads as before;
+in both cases the coordinates, the times, the number of fixes and the invariant are unchanged. (The statement of C17 does
+not apply to ECEF tracks — they define no planimetric distance; noted: a SECOND call finds the column and returns it.) -/
+theorem ecef_refused_table (L : Laws I n rd co) (T : Trig α) (eRef eAttr : Err) (hr : eRef ≠ .index) (ha : eAttr ≠ .index)
+    (sqrt : α → α) (ofNat : Nat → α) (isNaN : α → Bool) (s : σ) (hI : I s) (h2 : 2 ≤ n s) :
+    (rd s "ds" = none → ∃ s' col, (computeAbsCurvK (optG sqrt ofNat isNaN) (clsKernel T eRef eAttr .ecef) : M σ _) s = (.error eRef, s')
+        ∧ I s' ∧ n s' = n s ∧ co s' = co s ∧ rd s' "ds" = some col ∧ col[0]? = some (some 0) ∧ ∀ m, m ≠ "ds" → rd s' m = rd s m)
+    ∧ (rd s "speed" = none → ∃ s' col, (estimateSpeedK (optG sqrt ofNat isNaN) (clsKernel T eRef eAttr .ecef) : M σ _) s = (.error eAttr, s')
+        ∧ I s' ∧ n s' = n s ∧ co s' = co s ∧ rd s' "speed" = some col ∧ ∀ m, m ≠ "speed" → rd s' m = rd s m) :=
+  ⟨fun hds => computeAbsCurvK_refused L (optG sqrt ofNat isNaN) (clsKernel T eRef eAttr .ecef) eRef rfl hr s hI h2 hds,
+   fun hsp => estimateSpeedK_attr L (optG sqrt ofNat isNaN) (clsKernel T eRef eAttr .ecef) eAttr (fun _ _ _ _ _ _ => rfl) ha s hI h2 hsp⟩
+
+variable [IntCast α]
+
+/-- T1 for a Geo (or ENU) track whose observations are SHARED with other tracks, as one operation of a history on the world
+of observation objects (`stepK`, what the driver runs for class G / X pools): if track `k` satisfies `WInv`, holds `≥ 1`
+fixes at the finite coordinates `P` and lists neither `ds` nor `abs_curv`, then `computeAbsCurv(track k)` returns the prefix
+sums of the class distance of the CURRENT positions, track `k` reads them under `abs_curv` afterwards and reads every other
+name as before — whatever extra slots its observation objects carry from computations made on other tracks. -/
+theorem abscurv_shared_class (T : Trig α) (eRef eAttr : Err) (c : Cls) (hc : c ≠ .ecef)
+    (sqrt : α → α) (ofNat : Nat → α) (isNaN : α → Bool) (w : World (Option α)) (k : Nat)
+    (P : List (V3 α)) (hw : WInv { w with cur := k }) (hn : wN { w with cur := k } = P.length) (hpos : 0 < P.length)
+    (hx : wCo { w with cur := k } .x = xsP P) (hy : wCo { w with cur := k } .y = ysP P) (hz : wCo { w with cur := k } .z = zsP P)
+    (hds : wRd { w with cur := k } "ds" = none) (hac : wRd { w with cur := k } "abs_curv" = none) :
+    ∃ w', stepK (optG sqrt ofNat isNaN) (clsKernel T eRef eAttr c) (.absCurv k) w
+        = (.ok (.col ((List.range P.length).map (fun i => some (abscD (dist2C T c) P i)))), w')
+      ∧ WInv w' ∧ wCo w' = wCo { w with cur := k }
+      ∧ wRd w' "abs_curv" = some ((List.range P.length).map (fun i => some (abscD (dist2C T c) P i)))
+      ∧ ∀ m, m ≠ "abs_curv" → wRd w' m = wRd { w with cur := k } m := by
+  obtain ⟨w', e, hI', _, hco', hrd', hoth⟩ :=
+    abscurv_table_class laws_World T eRef eAttr c hc sqrt ofNat isNaN P { w with cur := k } hw hn hpos hx hy hz hds hac
+  refine ⟨w', ?_, hI', hco', hrd', hoth⟩
+  exact runCol_ok k _ w w' _ hw.cur e
+
+/-- T2 for a Geo (or ENU) track whose observations are shared: `estimate_speed(track k)` on `≥ 2` fixes without `speed`
+returns the speed column of the class distance of the CURRENT positions and of the absolute times of the CURRENT timestamp
+fields, and track `k` reads it under `speed` afterwards. -/
+theorem speed_shared_class (T : Trig α) (eRef eAttr : Err) (c : Cls) (hc : c ≠ .ecef)
+    (sqrt : α → α) (ofNat : Nat → α) (isNaN : α → Bool) (w : World (Option α)) (k : Nat)
+    (P : List (V3 α)) (ts : List α) (hw : WInv { w with cur := k }) (hn : wN { w with cur := k } = P.length) (h2 : 2 ≤ P.length)
+    (hx : wCo { w with cur := k } .x = xsP P) (hy : wCo { w with cur := k } .y = ysP P) (hz : wCo { w with cur := k } .z = zsP P)
+    (ht : wCo { w with cur := k } .t = tsOf ts) (hsp : wRd { w with cur := k } "speed" = none) :
+    ∃ w', stepK (optG sqrt ofNat isNaN) (clsKernel T eRef eAttr c) (.speed k) w
+        = (.ok (.col (speedColD (dist2C T c) P ts)), w')
+      ∧ WInv w' ∧ wCo w' = wCo { w with cur := k } ∧ wRd w' "speed" = some (speedColD (dist2C T c) P ts)
+      ∧ ∀ m, m ≠ "speed" → wRd w' m = wRd { w with cur := k } m := by
+  obtain ⟨w', e, hI', _, hco', hrd', hoth⟩ :=
+    speed_table_class laws_World T eRef eAttr c hc sqrt ofNat isNaN P ts { w with cur := k } hw hn h2 hx hy hz ht hsp
+  refine ⟨w', ?_, hI', hco', hrd', hoth⟩
+  exact runCol_ok k _ w w' _ hw.cur e
+
+/-- **Purity for every coordinate class, on every world.** Whatever the class of the position objects (the kernel `K` is
+arbitrary: ENU, Geo, ECEF with its refusal and its `AttributeError`, or anything else), whatever the tracks share, aligned
+or not, and also when the operation ends in an exception: after any operation on features the position and the stamp —
+seven calendar fields and `zone` — of EVERY observation object and the reference list of EVERY track are what they were. -/
+theorem positions_and_stamps_unchanged_class {V : Type} [AbsTime V] (g : GOps V) (K : Kernel V) (op : WOp V)
+    (hop : op.onFeatures = true) (w : World V) :
+    geom (stepK g K op w).2 = geom w ∧ (stepK g K op w).2.trks.map (·.ids) = w.trks.map (·.ids) :=
+  stepK_frame g K op hop w
+
+/-- No operation on features reads the zone field of a stamp, for every coordinate class: on a world whose zones were
+rewritten by any function it returns the same value / raises the same exception and ends in the rewritten final world. -/
+theorem zone_not_read_class {V : Type} [AbsTime V] (g : GOps V) (K : Kernel V) (op : WOp V) (hop : op.onFeatures = true)
+    (f : Int → Int) (w : World V) :
+    stepK g K op (w.zmap f) = ((stepK g K op w).1, (stepK g K op w).2.zmap f) :=
+  stepK_blind g K op hop f w
+
+end tableClass
+
+section tableClassRounded
+open TV.CinTabK TV.CinCoords
+open TV.Geo (Trig V3)
+variable [Add α] [Sub α] [Mul α] [Div α] [Neg α] [OfScientific α] [OfNat α 0] [Preorder α]
+
+/-- "Never decreases" for the column `abscurv_table_class` returns, for every class and WITHOUT exact arithmetic: under the
+two facts of correctly rounded IEEE arithmetic (`0 ≤ sqrt x`; `0 ≤ d → a ≤ a + d`) the prefix sums `abscD` of the class
+distance never decrease — whatever `sin`, `cos`, `atan2`, `pow` return: every leg is a square root. -/
+theorem abscurv_monotone_class (T : Trig α) (hsqrt : ∀ x, 0 ≤ T.sqrt x) (hadd : ∀ a d : α, 0 ≤ d → a ≤ a + d)
+    (c : Cls) (P : List (V3 α)) : ∀ i j, i ≤ j → abscD (dist2C T c) P i ≤ abscD (dist2C T c) P j := by
+  have hd : ∀ p q, 0 ≤ dist2C T c p q := by
+    intro p q
+    cases c with
+    | enu => exact hsqrt _
+    | geo => exact hsqrt _
+    | ecef => exact le_refl _
+  have step : ∀ i, abscD (dist2C T c) P i ≤ abscD (dist2C T c) P (i + 1) := by
+    intro i
+    show abscD (dist2C T c) P i ≤ abscD (dist2C T c) P i + _
+    apply hadd
+    cases P[i + 1]? with
+    | none => exact le_refl _
+    | some p =>
+      cases P[i]? with
+      | none => exact le_refl _
+      | some q => exact hd p q
+  intro i j hij
+  induction hij with
+  | refl => exact le_refl _
+  | step _ ih => exact le_trans ih (step _)
+
+end tableClassRounded
+
+section tableClassEntries
+open TV.CinTabK
+open TV.Geo (V3)
+variable [Add α] [Sub α] [Mul α] [Div α] [OfNat α 0] [BEq α] [LawfulBEq α]
+
+/-- The entries of the columns `abscurv_table_class` / `speed_table_class` return, for ANY distance `d` (`d self point` =
+`self.distance2DTo(point)`): the abscissa starts at `0` and grows by `d(P[i+1], P[i])`; the speed column has one value per
+fix, `v[0]` from fixes (1,0), `v[n-1]` from fixes (n-1,n-2), `v[i]` from fixes (i+1,i-1) otherwise, NaN exactly when the
+elapsed time is zero, else `d(P[a], P[b])` over the elapsed time. -/
+theorem class_columns_def (d : V3 α → V3 α → α) (P : List (V3 α)) (ts : List α) (hn : 2 ≤ P.length) (hts : ts.length = P.length) :
+    abscD d P 0 = 0
+    ∧ (∀ i (h : i + 1 < P.length), abscD d P (i + 1) = abscD d P i + d (P[i + 1]'h) (P[i]'(Nat.lt_of_succ_lt h)))
+    ∧ (speedColD d P ts).length = P.length
+    ∧ ∀ (i a b : Nat) (_hi : i < P.length),
+      ((i = 0 ∧ a = 1 ∧ b = 0) ∨ (i = P.length - 1 ∧ a = P.length - 1 ∧ b = P.length - 2)
+        ∨ (0 < i ∧ i < P.length - 1 ∧ a = i + 1 ∧ b = i - 1)) →
+      ∀ (ha : a < P.length) (hb : b < P.length),
+        (ts[a]'(hts ▸ ha) - ts[b]'(hts ▸ hb) = 0 → (speedColD d P ts)[i]? = some none) ∧
+        (ts[a]'(hts ▸ ha) - ts[b]'(hts ▸ hb) ≠ 0 →
+          (speedColD d P ts)[i]? = some (some (d P[a] P[b] / (ts[a]'(hts ▸ ha) - ts[b]'(hts ▸ hb))))) := by
+  refine ⟨rfl, fun i h => abscD_succ d P i h, by simp [speedColD], ?_⟩
+  intro i a b hi hcase ha hb
+  have ha' : a < ts.length := hts ▸ ha
+  have hb' : b < ts.length := hts ▸ hb
+  have hbetween : speedBetweenD d P ts a b = quot (d P[a] P[b]) (ts[a] - ts[b]) := by
+    unfold speedBetweenD
+    rw [List.getElem?_eq_getElem ha, List.getElem?_eq_getElem hb, List.getElem?_eq_getElem ha', List.getElem?_eq_getElem hb']
+  have key : speedAtD d P ts i = quot (d P[a] P[b]) (ts[a] - ts[b]) := by
+    rw [← hbetween]
+    unfold speedAtD
+    rcases hcase with ⟨h0, h1, h2⟩ | ⟨h0, h1, h2⟩ | ⟨h0, h1, h2, h3⟩
+    · subst h0 h1 h2; simp
+    · subst h1 h2
+      have hz : ¬ (P.length - 1 = 0) := by omega
+      subst h0
+      simp [hz]
+    · subst h2 h3
+      have hz : i ≠ 0 := by omega
+      have hl : i ≠ P.length - 1 := by omega
+      simp [hz, hl]
+  have hget : (speedColD d P ts)[i]? = some (speedAtD d P ts i) := by
+    unfold speedColD
+    simp [hi]
+  rw [hget, key]
+  exact ⟨fun h => by rw [quot_zero _ _ h], fun h => by rw [quot_ne _ _ h]⟩
+
+end tableClassEntries
+
 /-! ### non-vacuity -/
 
 /-- the square-root contract is inhabited (by `Real.sqrt`) -/
@@ -780,5 +1078,37 @@ example : (match (computeAbsCurvC demoT (computeAbsCurvC demoT demoEcef).2).1 wi
 example : (match (estimateSpeedC demoT (estimateSpeedC demoT demoEcef).2).1 with
     | .ok (some c) => c | _ => []) = [some 0, some 0, some 0] := by decide +kernel
 end demoCoords
+
+/-! ### non-vacuity of the class theorems on the table: the world `demoW` read as a pool of each class -/
+section demoClassWorld
+open TV.Features TV.CinTab TV.CinTabK TV.CinCoords
+open TV.Geo (V3)
+
+/-- the positions of track 0 of `demoW` -/
+def demoP : List (V3 Rat) := [⟨0, 0, 0⟩, ⟨3, 4, 0⟩, ⟨3, 4, 1⟩, ⟨6, 8, 0⟩]
+
+/-- the hypotheses of `abscurv_shared_class` / `speed_shared_class` hold for track 0 of `demoW` (`WInv`: above) -/
+example : wN { demoW with cur := 0 } = demoP.length ∧ 2 ≤ demoP.length ∧ wCo { demoW with cur := 0 } .x = xsP demoP
+    ∧ wCo { demoW with cur := 0 } .y = ysP demoP ∧ wCo { demoW with cur := 0 } .z = zsP demoP
+    ∧ wCo { demoW with cur := 0 } .t = tsOf demo.ts := by decide +kernel
+/-- as ENUCoords the class-generic step computes what `stepW` computes: 0, 5, 5, 10, foreign slots notwithstanding -/
+example : (match (stepK demoG (clsKernel demoT .type .key .enu) (.absCurv 0) demoW).1 with | .ok (.col l) => l | _ => [])
+    = [some 0, some 5, some 5, some 10] := by decide +kernel
+example : (match (stepK demoG (clsKernel demoT .type .key .enu) (.speed 0) demoW).1 with | .ok (.col l) => l | _ => [])
+    = [some (5 / 2), some (5 / 2), some (5 / 3), some (5 / 3)] := by decide +kernel
+/-- as GeoCoords (with the toy trigonometry of `demoT`): a column of four finite values starting at 0, stored under abs_curv -/
+example : (match (stepK demoG (clsKernel demoT .type .key .geo) (.absCurv 0) demoW).1 with
+    | .ok (.col l) => (l.length, l.head?, l.all Option.isSome) | _ => (0, none, false)) = (4, some (some 0), true) := by decide +kernel
+/-- as ECEFCoords: computeAbsCurv is refused, a `ds` column stays on track 0 (value 0 at fix 0), no abs_curv; estimate_speed
+raises the AttributeError; positions and stamps are what they were -/
+example : (match (stepK demoG (clsKernel demoT .type .key .ecef) (.absCurv 0) demoW).1 with | .error e => some e | _ => none)
+    = some .type := by decide +kernel
+example : (stepK demoG (clsKernel demoT .type .key .ecef) (.absCurv 0) demoW).2.trks.map (·.dico) = [[("ds", 0)], [("speed", 0)]] := by
+  decide +kernel
+example : (match (stepK demoG (clsKernel demoT .type .key .ecef) (.speed 0) demoW).1 with | .error e => some e | _ => none)
+    = some .key := by decide +kernel
+example : geom (stepK demoG (clsKernel demoT .type .key .ecef) (.absCurv 0) demoW).2 = geom demoW := by decide +kernel
+example : (Err.type ≠ Err.index) ∧ (Err.key ≠ Err.index) := by decide
+end demoClassWorld
 
 end TV.C17
